@@ -17,8 +17,17 @@ PROPS = ["C02"]
 
 
 def leaves(t):
+    """numpy leaves; a leaf that is a plain Python scalar (some eager resets return Python ints where the traced program
+    returns int32 arrays) is first converted the way JAX itself converts it (jnp.asarray: int -> int32, float -> float32),
+    so that only VALUES and genuine array dtypes are compared"""
     import jax
-    return [np.asarray(x) for x in jax.tree_util.tree_leaves(t)]
+    import jax.numpy as jnp
+    out = []
+    for x in jax.tree_util.tree_leaves(t):
+        if isinstance(x, (bool, int, float)):
+            x = jnp.asarray(x)
+        out.append(np.asarray(x))
+    return out
 
 
 def snap(t):
